@@ -22,7 +22,7 @@ Min(a, b) == IF a <= b THEN a ELSE b
 Max(a, b) == IF a >= b THEN a ELSE b
 
 \* ------------------------------------------------------------------ masks
-\* seg : sequence of 0/1 (segment of each sample), xr : sequence of ranks
+\* seg : sequence of segment indices (0 approach, 1, 2, ...), xr : sequence of ranks
 SegIdx(seg, s) == {i \in DOMAIN seg : seg[i] = s}
 ExpectedMask(seg, s, xr, lo, hi, zero) ==
   IF zero THEN SegIdx(seg, s)
